@@ -29,6 +29,7 @@ func (r *RigS) afterStep(crashing bool) {
 		done.Faults = r.opFaults
 		r.st.OpLog = append(r.st.OpLog, *done)
 		r.st.InFlight = -1
+		r.st.HistAtOp = r.st.HistPos
 		r.opBusy = false
 		r.judgeResponse(done)
 		r.pendingOp = done
@@ -435,7 +436,22 @@ func (r *RigS) waitsInBatcher(tgt int, coll int64, shard int, lost []int64) bool
 			ch := physOf(v)
 			for _, a := range r.st.SDK[tgt].Acks {
 				if a.Channel == ch && a.Inc == r.plan.Incarnation && a.Step > step+1 {
-					return false
+					// ... unless that pack had been read no later than the message (it stood in front of the message's pack in the
+					// batcher: the arrival of the forwarded pack flushes what waited before it, never itself)
+					earlier := false
+					for _, st := range r.mq.All {
+						if st.PCh == replicateChan || r.targetOfStream(st) != tgt {
+							continue
+						}
+						for _, dp := range st.Delivered {
+							if dp.EndSeq == a.EndSeq && dp.Step <= step {
+								earlier = true
+							}
+						}
+					}
+					if !earlier {
+						return false
+					}
 				}
 			}
 		}
@@ -1451,6 +1467,16 @@ func (r *RigS) finalOracles() {
 				// ... also when the failure pause of the neighbour could not be persisted (it is Paused in memory only)
 				for id2, m2 := range sn.Tasks {
 					if id2 != owner && tasks[id2] != nil && ukeyOf(tasks[id2]) == ukeyOf(tasks[owner]) && m2.State == "Paused" && m2.Reason != "" && !strings.HasPrefix(m2.Reason, "manually pause") {
+						cls = "_bystander_of_failed_task"
+					}
+				}
+			}
+			if cls == "" && r.bgTouched[tgt] {
+				// ... and when the failure pause of a task on this downstream left no trace (the operator had paused that task
+				// already, or the store refused the write) and the operator resumed it afterwards: it is Running again, but the
+				// loops that returned at the failure are not started again while the entity lives
+				for _, o := range r.st.OpLog {
+					if t := r.st.Tasks[o.Task]; o.K == "resume" && o.Code == 200 && o.Inc == r.plan.Incarnation && t != nil && t.Spec != nil && t.Spec.tgt() == tgt {
 						cls = "_bystander_of_failed_task"
 					}
 				}
